@@ -38,17 +38,26 @@ class NanWorld(RX.World):
         return RX.World.leaf(self, base, key)
 
 
-def call(entry, schema, text, variables, operation_name, world):
+def call(entry, schema, text, variables, operation_name, world, validators=None):
     from py_gql import graphql_blocking, process_graphql_query, graphql
     from py_gql.execution import Executor
+    kw = {} if validators is None else {"validators": validators}
     if entry == "graphql_blocking":
-        return graphql_blocking(schema, text, variables=variables, operation_name=operation_name, context=world)
+        return graphql_blocking(schema, text, variables=variables, operation_name=operation_name, context=world, **kw)
     if entry == "process_executor":
-        return process_graphql_query(schema, text, variables=variables, operation_name=operation_name, context=world, executor_cls=Executor)
+        return process_graphql_query(schema, text, variables=variables, operation_name=operation_name, context=world, executor_cls=Executor, **kw)
 
     async def main():
-        return await graphql(schema, text, variables=variables, operation_name=operation_name, context=world)
+        return await graphql(schema, text, variables=variables, operation_name=operation_name, context=world, **kw)
     return asyncio.run(main())
+
+
+REFUSAL = "refused by this request's own validator"
+
+
+def _refusing_validator(schema, document, variables=None):
+    from py_gql.exc import ValidationError
+    return [ValidationError(REFUSAL, [document.definitions[0]] if document.definitions else [])]
 
 
 def lookup(data, path):
@@ -197,6 +206,21 @@ def check_request(schema, eff, spec_world, req, entry, ctx=None):
                     if hit and not any(x.get("extensions") == e[3] and x.get("message") == e[2] for x in hit):
                         vios.append(("C10/resolver-message-or-extensions-not-passed-through",
                                      "path=%r response=%r want message=%r extensions=%r" % (e[0], hit[:2], e[2], e[3])))
+    if parse_ok and valid and not req.get("nan"):
+        # the same text again, for a caller whose validators refuse it (the standard rules plus one more): validation is
+        # per request, whatever was accepted before - errors, and no data
+        from py_gql.validation import default_validator
+        try:
+            again = call(entry, schema, text, req["variables"], req["operation_name"],
+                         wcls(eff, wj["salt"], wj["p_err"], wj["p_null"], wj["p_null_item"]), [default_validator, _refusing_validator])
+            resp = again.response()
+            if "data" in resp or not any(e.get("message") == REFUSAL for e in resp.get("errors") or []):
+                vios.append(("C10/data-present-after-validation-failure/own-validators-after-earlier-acceptance",
+                             "response keys=%r errors=%r" % (sorted(resp), [e.get("message") for e in resp.get("errors") or []][:3])))
+        except Exception as e:  # noqa
+            vios.append(("C10/request-raises/%s@%s/own-validators" % (type(e).__name__, H.frame_of(e)), repr(e)[:200]))
+        if ctx is not None:
+            ctx.event("same-text-under-refusing-validators")
     return [(s, "entry=%s %s" % (entry, d)) for s, d in vios], stage
 
 
